@@ -59,6 +59,8 @@ fn run_case(line: &str) -> String {
     if timer != -1 {
         let t = match timer {
             -2 => Timer::from_duration(Duration::MAX),
+            // 2^64 ms + 100 ms away: far beyond any wait, but not representable in 64 bits of milliseconds
+            -4 => Timer::from_duration(Duration::new(18_446_744_073_709_551, 616_000_000) + Duration::from_millis(100)),
             -3 => Timer::from_deadline(Instant::now() - Duration::from_millis(5)),
             ms => Timer::from_duration(Duration::from_millis(ms as u64)),
         };
@@ -70,7 +72,14 @@ fn run_case(line: &str) -> String {
             })
             .unwrap();
     }
-    let to = if timeout < 0 { None } else { Some(Duration::from_millis(timeout as u64)) };
+    // -1: None; -2: Some(Duration::MAX) - both are ended by the wakeup() of the helper thread
+    let to = if timeout == -2 {
+        Some(Duration::MAX)
+    } else if timeout < 0 {
+        None
+    } else {
+        Some(Duration::from_millis(timeout as u64))
+    };
     let waker = if timeout < 0 {
         let sig = event_loop.get_signal();
         Some(std::thread::spawn(move || {
